@@ -37,22 +37,13 @@ fn sched_cb(name: &'static str) {
     EXEC_HASH.store(mix64(h ^ (name.as_ptr() as u64).wrapping_mul(31) ^ (me << 56)), Ordering::SeqCst);
     SCHED_POINTS.fetch_add(1, Ordering::SeqCst);
     match name {
-        // The real parking_lot lock of MetaManager::set_meta is shadowed: a thread that would have to
-        // wait for it waits cooperatively here instead, and never parks the only OS thread.
-        "manager::set_meta::lock" => {
-            while SHADOW_LOCK.swap(true, Ordering::SeqCst) {
-                shuttle::thread::yield_now();
-            }
-        }
-        "manager::set_meta::unlock" => {
-            // no scheduling point while the real guard is still alive
-            SHADOW_LOCK.store(false, Ordering::SeqCst);
-        }
+        // hook H11: the metadata locks of the proxy are try-lock loops under cfg(undermoon_verif); a
+        // thread that finds the lock taken gives way (lowest priority under PCT) until it is free
+        "lock::contended" => shuttle::thread::yield_now(),
         _ => shuttle::thread::sleep(Duration::from_secs(0)),
     }
 }
 
-static SHADOW_LOCK: AtomicBool = AtomicBool::new(false);
 static SOFT: Mutex<Vec<(String, String)>> = Mutex::new(Vec::new());
 
 // ---------------------------------------------------------------------------
@@ -402,14 +393,48 @@ fn cluster_msg(epoch: u64) -> ProxyClusterMeta {
     ProxyClusterMeta::new(epoch, ClusterMapFlags { force: false, compress: false }, name, local, peer, ClusterConfig::default())
 }
 
+/// odd epochs: node A master / node B replica; even epochs: the other way round. Every peer
+/// address carries the epoch, so a report mixing two messages is recognisable.
 fn repl_msg(epoch: u64) -> ReplicatorMeta {
     let name = ClusterName::try_from("c0").unwrap_or_else(|_| ClusterName::empty());
+    let (m, r) = if epoch % 2 == 1 { ("10.0.0.1:6000", "10.0.0.1:6001") } else { ("10.0.0.1:6001", "10.0.0.1:6000") };
     ReplicatorMeta {
         epoch,
         flags: ClusterMapFlags { force: false, compress: false },
-        masters: vec![MasterMeta { cluster_name: name, master_node_address: "10.0.0.1:6000".into(), replicas: vec![ReplPeer { node_address: format!("10.9.9.1:{}", 10_000 + epoch), proxy_address: "10.0.1.1:7000".into() }] }],
-        replicas: vec![],
+        masters: vec![MasterMeta { cluster_name: name.clone(), master_node_address: m.into(), replicas: vec![ReplPeer { node_address: format!("10.9.9.1:{}", 10_000 + epoch), proxy_address: "10.0.1.1:7000".into() }] }],
+        replicas: vec![undermoon::replication::replicator::ReplicaMeta { cluster_name: name, replica_node_address: r.into(), masters: vec![ReplPeer { node_address: format!("10.9.8.1:{}", 10_000 + epoch), proxy_address: "10.0.1.1:7000".into() }] }],
     }
+}
+
+/// (role, node, peer) triples of a UMCTL INFOREPL style report
+fn repl_report(mgr: &Mgr) -> Vec<(String, String, String)> {
+    let mut out = vec![];
+    if let undermoon::protocol::Resp::Arr(undermoon::protocol::Array::Arr(items)) = mgr.get_replication_info() {
+        for it in items.iter() {
+            let lines = crate::cluster::resp_to_strings(it);
+            let (mut role, mut node, mut peer) = (String::new(), String::new(), String::new());
+            for l in lines.iter() {
+                let l = l.trim();
+                if let Some(v) = l.strip_prefix("role:") {
+                    role = v.to_string();
+                } else if let Some(v) = l.strip_prefix("node_address:") {
+                    node = v.to_string();
+                } else if let Some(v) = l.strip_prefix("replica:").or_else(|| l.strip_prefix("master:")) {
+                    peer = v.split('@').next().unwrap_or("").to_string();
+                }
+            }
+            out.push((role, node, peer));
+        }
+    }
+    out.sort();
+    out
+}
+
+fn repl_report_of(epoch: u64) -> Vec<(String, String, String)> {
+    let (m, r) = if epoch % 2 == 1 { ("10.0.0.1:6000", "10.0.0.1:6001") } else { ("10.0.0.1:6001", "10.0.0.1:6000") };
+    let mut v = vec![("master".to_string(), m.to_string(), format!("10.9.9.1:{}", 10_000 + epoch)), ("replica".to_string(), r.to_string(), format!("10.9.8.1:{}", 10_000 + epoch))];
+    v.sort();
+    v
 }
 
 fn nodes_epoch(text: &str) -> u64 {
@@ -463,11 +488,11 @@ struct MetaParams {
 }
 
 fn meta_scenario(p: &MetaParams) {
-    SHADOW_LOCK.store(false, Ordering::SeqCst);
     let mgr = Arc::new(new_manager());
     let clock = Arc::new(AtomicU64::new(1));
     let calls: Arc<Mutex<Vec<(u8, u64, u64, u64, bool)>>> = Arc::new(Mutex::new(vec![]));
     let samples: Arc<Mutex<Vec<(u64, u64)>>> = Arc::new(Mutex::new(vec![]));
+    let repl_samples: Arc<Mutex<Vec<Vec<(String, String, String)>>>> = Arc::new(Mutex::new(vec![]));
     let mut handles = vec![];
     for t in 0..p.threads {
         let my: Vec<(u8, u64)> = p.msgs.iter().filter(|m| m.0 == t).map(|m| (m.1, m.2)).collect();
@@ -491,6 +516,7 @@ fn meta_scenario(p: &MetaParams) {
     {
         let mgr = mgr.clone();
         let samples = samples.clone();
+        let repl_samples = repl_samples.clone();
         let n = p.reader_samples;
         handles.push(shuttle::thread::spawn(move || {
             for _ in 0..n {
@@ -499,6 +525,9 @@ fn meta_scenario(p: &MetaParams) {
                 sched_cb("reader::between");
                 let s = nodes_epoch(&mgr.gen_cluster_nodes());
                 samples.lock().expect("samples").push((e, s));
+                sched_cb("reader::before_repl");
+                let rep = repl_report(&mgr);
+                repl_samples.lock().expect("repl samples").push(rep);
             }
         }));
     }
@@ -532,12 +561,19 @@ fn meta_scenario(p: &MetaParams) {
                 fail("final-cluster-meta-not-newest-accepted", format!("after all calls: reported epoch {}, routing metadata of epoch {}, newest accepted message {} (calls {:?})", e, s, max_ok, cs));
             }
         } else if max_ok > 0 {
-            let report = crate::cluster::resp_to_strings(&mgr.get_replication_info()).join(" ");
-            let marker = format!("10.9.9.1:{}", 10_000 + max_ok);
-            if !report.contains(&marker) {
-                fail("final-repl-meta-not-newest-accepted", format!("after all calls the replication roles are not those of the newest accepted message (epoch {}): {} (calls {:?})", max_ok, report, cs));
+            let report = repl_report(&mgr);
+            if report != repl_report_of(max_ok) {
+                fail("final-repl-meta-not-newest-accepted", format!("after all calls the replication roles are not those of the newest accepted message (epoch {}): {:?} (calls {:?})", max_ok, report, cs));
             }
         }
+    }
+    // the reader: every replication report is empty or exactly the role set of one message
+    let repl_epochs: Vec<u64> = p.msgs.iter().filter(|m| m.1 == 1).map(|m| m.2).collect();
+    for rep in repl_samples.lock().expect("repl samples").iter() {
+        if rep.is_empty() || repl_epochs.iter().any(|e| &repl_report_of(*e) == rep) {
+            continue;
+        }
+        fail("repl-report-of-no-message", format!("a reader saw replication roles that no SETREPL message contained: {:?} (messages of epochs {:?})", rep, repl_epochs));
     }
     // the reader: the reported epoch is never ahead of the installed routing metadata, and never decreases
     let ss = samples.lock().expect("samples").clone();
